@@ -194,6 +194,7 @@ def _s_cluster(tier):
                      busers=st.lists(st.tuples(st.integers(0, 35), _angle(),
                                                fl(0.0, 1.0)).map(list),
                                      max_size=4),
+                     busers_list=st.booleans(), busers_ends=st.booleans(),
                      ratio=st.one_of(st.just(0.0), fl(0.0, 0.7)),
                      wrap=st.booleans(), seed=seeds)
     return st.one_of(one("simple"), one("3sec"), one("square"))
@@ -394,6 +395,11 @@ def _build(spec):
     else:
         obj = mk(cls, pos0, R0, rot0)
         if setter:
+            # the object is used before it is moved / resized / rotated
+            obj.is_point_inside_shape(pos0 + 0.3 * R0)
+            obj.vertices
+            if hasattr(obj, "get_border_point"):
+                obj.get_border_point(10.0, 1.0)
             final = dict(pos=pos, radius=R, rotation=rot)
             for name in _ORDERS[setter - 1]:
                 setattr(obj, name, final[name])
@@ -694,6 +700,20 @@ def _check_users(case, ctx):
         raise Violation("user_count", "%d users after adding %d" %
                         (len(users), n), tags)
     ctx.nontrivial(rotated and n >= 1)
+    if cls in ("Cell", "CellSquare", "Cell3Sec") and n:
+        # the populated cell is moved: its users move with it
+        off = [complex(u.pos) - pos for u in users]
+        newpos = pos + complex(-1.5 * R, 0.75 * R)
+        with _watchdog(tags):
+            obj.pos = newpos
+        ctx.label("users:cell_moved_afterwards")
+        for o, u in zip(off, list(obj.users)):
+            _close(ctx, "moved_cell_users", abs((complex(u.pos) - newpos) - o),
+                   RTOL * (L + abs(newpos)), "user offset %r before, %r after "
+                   "moving the cell" % (o, complex(u.pos) - newpos), tags)
+        with _watchdog(tags):
+            obj.pos = pos
+        users = list(obj.users)
     if cls in ("Cell", "CellSquare", "Cell3Sec"):
         # a wrapped copy of the cell that shows its users: a congruent copy,
         # users included (same offsets from the cell centre)
@@ -818,8 +838,36 @@ def _check_cluster(case, ctx):
                                 "cell %d: %r" % (j, pts[ins][:3].tolist()),
                                 tags)
     # users and distance matrices
-    for cid, ang, ratio in case["busers"]:
-        cl.add_border_users(int(cid) % N + 1, float(ang), float(ratio))
+    bus = [(int(cid) % N + 1, float(ang), float(ratio))
+           for cid, ang, ratio in case["busers"]]
+    if case.get("busers_ends") and bus:
+        # ratio 0 (the centre) and 1 (the border itself)
+        bus[0] = (bus[0][0], bus[0][1], 0.0)
+        bus[-1] = (bus[-1][0], bus[-1][1], 1.0)
+    before = dict((k, list(c.users)) for k, c in enumerate(cells))
+    if case.get("busers_list") and len(bus) >= 2:
+        # one call: a cell id, an angle and a ratio per user
+        ctx.label("cluster:border_users_list_call")
+        cl.add_border_users([b[0] for b in bus], [b[1] for b in bus],
+                            [b[2] for b in bus])
+    else:
+        for cid, ang, ratio in bus:
+            cl.add_border_users(cid, ang, ratio)
+    # a border user sits where the cell's border point for that angle and
+    # ratio is (that point is judged by the 'border' part)
+    newu = dict((k, list(c.users)[len(before[k]):])
+                for k, c in enumerate(cells))
+    for cid, ang, ratio in bus:
+        k = cid - 1
+        if not newu[k]:
+            raise Violation("border_user", "no user added to cell %d" % cid,
+                            tags)
+        u = newu[k].pop(0)
+        want = complex(cells[k].get_border_point(ang, ratio))
+        _close(ctx, "border_user", abs(complex(u.pos) - want),
+               RTOL * (R + abs(pos)) * 10, "cell %d angle %r ratio %r: user "
+               "at %r, border point %r" % (cid, ang, ratio, complex(u.pos),
+                                           want), tags)
     counts = [int(x) for x in case["users"]][:N]
     ratio = float(case["ratio"])
     np.random.seed(int(case["seed"]))
